@@ -221,10 +221,14 @@ func (r *Run) IsKnown(sig string) bool {
 	return false
 }
 
-func (r *Run) SetRule(rule string)       { r.P.Rule = rule }
-func (r *Run) Assume(a ...string)        { r.P.Assumptions = append(r.P.Assumptions, a...) }
-func (r *Run) SetExtra(k string, v any)  { r.mu.Lock(); r.P.Extra[k] = v; r.mu.Unlock() }
-func (r *Run) Inconclusive(why string)   { r.mu.Lock(); r.P.Inconclusive = append(r.P.Inconclusive, why); r.mu.Unlock() }
+func (r *Run) SetRule(rule string)      { r.P.Rule = rule }
+func (r *Run) Assume(a ...string)       { r.P.Assumptions = append(r.P.Assumptions, a...) }
+func (r *Run) SetExtra(k string, v any) { r.mu.Lock(); r.P.Extra[k] = v; r.mu.Unlock() }
+func (r *Run) Inconclusive(why string) {
+	r.mu.Lock()
+	r.P.Inconclusive = append(r.P.Inconclusive, why)
+	r.mu.Unlock()
+}
 func (r *Run) ExhaustiveSpace(name string, n int64) {
 	r.mu.Lock()
 	r.P.Exhaustive[name] += n
@@ -303,7 +307,7 @@ func (r *Run) Fail(sub string, c any, f *Failure) bool {
 func (r *Run) FailDistinct(sub string, c any, f *Failure) bool {
 	key := sub + "#" + f.Sig
 	r.mu.Lock()
-	if _, ok := r.last[key]; ok {
+	if _, ok := r.last[key]; ok || len(r.last) >= 20 {
 		r.mu.Unlock()
 		return !r.IsKnown(f.Sig)
 	}
